@@ -78,7 +78,7 @@ def _fa(vs, body, pats):
     return z3.ForAll(vs, body, patterns=pats)
 
 
-def bytes_axioms():
+def bytes_axioms(derived=True):
     s, t, m = z3.Consts('s t m', Bytes)
     i, j, k, n = z3.Ints('i j k n')
     ax = []
@@ -94,6 +94,12 @@ def bytes_axioms():
                                            bat(bslice(s, i, j), k) == bat(s, i + k)),
                   [bat(bslice(s, i, j), k)]))
     ax.append(_fa([s], bslice(s, 0, blen(s)) == s, [bslice(s, 0, blen(s))]))
+    if derived:
+        # slice of a slice (derived: proved from the other axioms + extensionality by lemma bytes.slice_of_slice)
+        a, b, c, d = z3.Ints('a b c d')
+        ax.append(_fa([s, a, b, c, d], z3.Implies(z3.And(0 <= a, a <= b, b <= blen(s), 0 <= c, c <= d, d <= b - a),
+                                                  bslice(bslice(s, a, b), c, d) == bslice(s, a + c, a + d)),
+                      [bslice(bslice(s, a, b), c, d)]))
     # concat
     ax.append(_fa([s, t], blen(bconcat(s, t)) == blen(s) + blen(t), [bconcat(s, t)]))
     ax.append(_fa([s, t, k], z3.Implies(z3.And(0 <= k, k < blen(s)),
